@@ -45,6 +45,8 @@ pub fn profile(name: &str) -> Profile {
         "cachecfg" => Profile { name: "cachecfg", flavour: 2, tight: true, small_buf: true, lifecycle: true, steps: (25, 60), ..base },
         // async flavour of the above
         "cacheqa" => Profile { name: "cacheqa", flavour: 1, tight: true, validators: true, costers: true, lifecycle: true, ..base },
+        // the same quiescent history on Cache and on AsyncCache, compared observation by observation: C19
+        "cachepair" => Profile { name: "cachepair", tight: true, validators: true, costers: true, lifecycle: true, ..base },
         "cachesa" => Profile { name: "cachesa", flavour: 1, quiescent: false, nclients: 3, lifecycle: true, tight: true, small_buf: true, steps: (30, 90), ..base },
         _ => panic!("unknown cache profile {}", name),
     }
@@ -158,7 +160,68 @@ impl Gen {
     }
 }
 
+enum Act { Op(Op), Advance(u64), Tick }
+
+/// C19: every case is a scripted quiescent history run twice, on Cache and on AsyncCache (both runs are
+/// also compared with the model); the two runs' results, callbacks and quiescent snapshots must agree.
+pub fn suite_pair(rng: &mut Rng, cases: u64, t: &mut Trace) {
+    let p = profile("cachepair");
+    let sched = Sched::new();
+    stretto::verif::install(Some(sched.clone()));
+    for id in 0..cases {
+        let mut cfg = gen_config(rng, &p);
+        let mut g = Gen { next_val: 1000 + id * 1000, nkeys: rng.range(3, 7) };
+        let steps = rng.range(p.steps.0, p.steps.1);
+        let mut script = Vec::new();
+        for _ in 0..steps {
+            let r = rng.below(100);
+            if r < 78 { script.push(Act::Op(g.op(rng, &p, &cfg))); }
+            else if r < 90 { script.push(Act::Advance(*rng.pick(&DTS))); }
+            else { script.push(Act::Tick); }
+        }
+        let mut logs: Vec<Vec<String>> = Vec::new();
+        for flavour in 0..2u64 {
+            cfg.is_async = flavour == 1;
+            t.case(id * 2 + flavour, p.name);
+            let flags = crate::monitors::Flags { exact_map: false, collisions: false, quiescent_profile: true };
+            let mut case = match Case::new(sched.clone(), cfg.clone(), 1, id * 2 + flavour, flags) {
+                Ok(c) => c,
+                Err(e) => { t.step(&format!("cnew-failed {}", e)); logs.push(vec![format!("cnew-failed {}", e)]); continue; }
+            };
+            t.step(&cnew_line(&cfg, case.item_size));
+            t.obs("ok");
+            t.snap(&crate::cachesuite::str_snap(&crate::cachesuite::snapshot(&case.ck)));
+            let mut srng = Rng::new(id * 7919 + 13);
+            for a in &script {
+                if case.hung { break; }
+                match a {
+                    Act::Op(op) => { case.start_op(t, 0, op.clone()); case.settle(t, &mut srng); }
+                    Act::Advance(dt) => case.advance(t, *dt),
+                    Act::Tick => { case.tick(t); case.settle(t, &mut srng); }
+                }
+            }
+            t.mark_nontrivial();
+            let pl = case.pair_log.clone();
+            case.finish(t, &mut srng);
+            let v = pl.lock().unwrap().clone();
+            logs.push(v);
+        }
+        if logs.len() == 2 && logs[0] != logs[1] {
+            let n = logs[0].len().min(logs[1].len());
+            let i = (0..n).find(|i| logs[0][*i] != logs[1][*i]).unwrap_or(n);
+            let a = logs[0].get(i).cloned().unwrap_or_else(|| "<end>".into());
+            let b = logs[1].get(i).cloned().unwrap_or_else(|| "<end>".into());
+            let msg = format!("Cache and AsyncCache differ on the same quiescent history at observation {}: sync [{}] async [{}]", i, a, b);
+            println!("MONITOR property=C19 case={} msg={}", id * 2 + 1, msg.replace(' ', "_").chars().take(600).collect::<String>());
+        }
+    }
+    stretto::verif::install(None);
+}
+
 pub fn suite_cache(rng: &mut Rng, cases: u64, t: &mut Trace, pname: &str) {
+    if pname == "cachepair" {
+        return suite_pair(rng, cases, t);
+    }
     let p = profile(pname);
     let sched = Sched::new();
     stretto::verif::install(Some(sched.clone()));
